@@ -771,7 +771,12 @@ fn c16(tier: &str, thorough: bool) -> i32 {
         files += st.files;
         cases += st.cases;
     }
-    ctx.finish(files.max(1), cases)
+    // clause (a) on arbitrary inputs: every corrupted input of the C05 enumeration that strict open
+    // accepts must be accepted by permissive open with the same view
+    let only: Option<Vec<&str>> = if thorough { None } else { Some(vec!["tree-v3", "mixed-v3", "synth-three-minis-v3", "difat-v3", "fresh-v4", "dir2-v3"]) };
+    let (c2, _) = sweep_all(ctx, crate::e5::Mode::ReadOnly, thorough, &[], only.as_deref());
+    ctx.add("strict_implies_permissive_inputs", c2);
+    ctx.finish(files.max(1), cases + c2)
 }
 
 fn sweep_all(ctx: &'static Ctx, mode: crate::e5::Mode, thorough: bool, pair_bases: &[&str], only: Option<&[&str]>) -> (u64, u64) {
